@@ -353,7 +353,7 @@ def handle (st : St) (line : String) : St × String :=
     | some d, some p => let r := Compress.findBlock d p; s!"ok {r.1} {r.2}"
     | _, _ => "bad-op"
   -- .p8.png
-  | ["code2bytes", h] => (parseHex h).elim "bad-op" fun d => showEx (P8Png.getBytesFromCode d)
+  | ["code2bytes", v, h] => (parseHex h).elim "bad-op" fun d => (v.toNat?).elim "bad-op" fun vn => showEx (P8Png.getBytesFromCode d vn)
   | ["bytes2code", v, h] =>
     match v.toNat?, parseHex h with
     | some v, some d =>
